@@ -69,7 +69,9 @@ CFG = {
         "note": "hyper's parser/connection state machine, tokio scheduling, rustls and TCP are outside the model "
                 "(oracle parse_all); the theorems cover dropshot's response function, the isolation structure and "
                 "the accept loop; 'never crashes or wedges' for the real runtime is evidence from the fault "
-                "enumeration, not a proof. accept(2) errors are not injectable.",
+                "enumeration, not a proof. accept(2) errors other than EMFILE are not injectable. Open known finding "
+                "K18: invalid chunked body framing on a request to an endpoint that never reads the body is "
+                "answered 2xx (code 118; C18_K18_refuted, the refusal theorem is stated outside the class).",
         "technique": "Coq proof (LTS over an association list of connections + response-syntax recogniser with "
                      "round-trip theorem) + live-server fault enumeration judged in Coq"
     },
